@@ -678,6 +678,13 @@ func c03Register(w *World, r *Report) {
 		return
 	}
 	chField := fieldOf(chNamed, "channels")
+	if chField == nil {
+		// by role: the field of type server.Channels
+		chField = fieldByType(chNamed, func(t types.Type) bool {
+			nt, ok := t.(*types.Named)
+			return ok && nt.Obj().Name() == "Channels" && nt.Obj().Pkg() != nil && strings.HasSuffix(nt.Obj().Pkg().Path(), "/internal/server")
+		})
+	}
 	n, nneg := 0, 0
 	bad := ""
 	pos := "-"
@@ -747,8 +754,11 @@ func c03Register(w *World, r *Report) {
 			okh := false
 			for _, root := range provenance(h, provOpts{}) {
 				if mc, ok := root.(*ssa.MakeClosure); ok {
-					if bf, ok := mc.Fn.(*ssa.Function); ok && strings.Contains(bf.Name(), "muxHandler") {
-						okh = true
+					if bf, ok := mc.Fn.(*ssa.Function); ok {
+						mh := methodOf(chNamed, "muxHandler") // by name, or by its role signature after a rename
+						if mh != nil && (fnObj(bf) == mh || strings.HasPrefix(bf.Name(), mh.Name()+"$")) {
+							okh = true
+						}
 					}
 				}
 			}
